@@ -623,6 +623,49 @@ Qed.
 Lemma pydiv_zero a b : b == 0 -> pydiv a b = Raise ZeroDivisionError.
 Proof. intro H. unfold pydiv. apply Qeq_bool_iff in H. rewrite H. reflexivity. Qed.
 
+(* ------------------------------------------------------------------ *)
+(* One sensor object over a sequence of calls (reads and calibrations) *)
+
+Definition is_read (o : sop) : Prop :=
+  match o with OpRead _ => True | OpCalibrate _ _ => False end.
+
+(* what an observation must look like if no read ever raises *)
+Definition read_returns (o : sobs) : Prop :=
+  match o with ObsRead r => exists y, r = Val y | ObsCalibrate _ => True end.
+
+(* the calibration in force after the calls [ops]: the last calibrate(p) with
+   p <> -25 (calibrate(-25) raises and assigns nothing), as (voltage, p) *)
+Fixpoint last_cal_from (acc : option (Q * Q)) (ops : list sop) : option (Q * Q) :=
+  match ops with
+  | [] => acc
+  | OpRead _ :: r => last_cal_from acc r
+  | OpCalibrate v p :: r =>
+      last_cal_from (if Qeq_bool p (-25) then acc else Some (v, p)) r
+  end.
+Definition last_cal (ops : list sop) : option (Q * Q) := last_cal_from None ops.
+
+Lemma final_state_cons K s o r :
+  final_state K s (o :: r) = final_state K (step_state K s o) r.
+Proof. reflexivity. Qed.
+
+Lemma final_state_app K s a b :
+  final_state K s (a ++ b) = final_state K (final_state K s a) b.
+Proof. unfold final_state. apply fold_left_app. Qed.
+
+Lemma observations_app K s a b :
+  observations K s (a ++ b) = observations K s a ++ observations K (final_state K s a) b.
+Proof.
+  revert s. induction a as [|o a IH]; intro s; [reflexivity|].
+  simpl. rewrite IH. reflexivity.
+Qed.
+
+(* reads never change the object *)
+Theorem reads_keep_state K s ops : Forall is_read ops -> final_state K s ops = s.
+Proof.
+  induction 1 as [|o r Ho _ IH]; [reflexivity|].
+  destruct o; [exact IH | destruct Ho].
+Qed.
+
 Section Pressure.
 Variable K : sconsts.
 Hypothesis HK : consts_ok K = true.
@@ -745,5 +788,127 @@ Proof.
   intros s v p Hp. unfold calibrate. rewrite pydiv_zero; [reflexivity|].
   rewrite Hslope, Hcoff. lra.
 Qed.
+
+(* ---- sequences of calls on one object ---- *)
+
+Lemma step_calibrate_ok s v p s' : calibrate K s v p = Val s' ->
+  step_state K s (OpCalibrate v p) = s' /\ step_obs K s (OpCalibrate v p) = ObsCalibrate (Val tt).
+Proof. intro H. unfold step_state, step_obs. rewrite H. split; reflexivity. Qed.
+
+Theorem step_calibrate_returns : forall s v p, ~ p == -25 ->
+  step_obs K s (OpCalibrate v p) = ObsCalibrate (Val tt).
+Proof.
+  intros s v p Hp. destruct (calibrated_general s v p v Hp) as (s' & _ & Hc & _).
+  exact (proj2 (step_calibrate_ok s v p s' Hc)).
+Qed.
+
+Theorem step_calibrate_fails : forall s v p, p == -25 ->
+  step_state K s (OpCalibrate v p) = s /\
+    step_obs K s (OpCalibrate v p) = ObsCalibrate (Raise ZeroDivisionError).
+Proof.
+  intros s v p Hp. unfold step_state, step_obs. rewrite (calibrate_raises s v p Hp).
+  split; reflexivity.
+Qed.
+
+(* the object after  pre ; calibrate(p) at v ; reads  *)
+Lemma state_after_calibrate s0 pre v p mid : Forall is_read mid ->
+  final_state K s0 (pre ++ OpCalibrate v p :: mid) =
+  step_state K (final_state K s0 pre) (OpCalibrate v p).
+Proof.
+  intro Hm. rewrite final_state_app, final_state_cons. apply reads_keep_state. exact Hm.
+Qed.
+
+Lemma observations_last s0 ops v :
+  observations K s0 (ops ++ [OpRead v]) =
+  observations K s0 ops ++ [ObsRead (pressure K (final_state K s0 ops) v)].
+Proof. rewrite observations_app. reflexivity. Qed.
+
+(* whatever was done with the object before (reads, calibrations, failed
+   calibrations), and however many reads at whatever voltages follow the
+   calibration: at the calibration voltage the sensor reports p *)
+Theorem history_calibrated : forall s0 pre v p mid,
+  0 <= p -> Forall is_read mid ->
+  exists obs y,
+    observations K s0 (pre ++ OpCalibrate v p :: mid ++ [OpRead v]) = obs ++ [ObsRead (Val y)] /\
+    y == p.
+Proof.
+  intros s0 pre v p mid Hp Hm.
+  destruct (calibrated (final_state K s0 pre) v p Hp) as (s' & y & Hc & _ & Hy & E).
+  exists (observations K s0 (pre ++ OpCalibrate v p :: mid)), y. split; [|exact E].
+  rewrite app_comm_cons, app_assoc, observations_last, (state_after_calibrate s0 pre v p mid Hm).
+  rewrite (proj1 (step_calibrate_ok _ v p s' Hc)), Hy. reflexivity.
+Qed.
+
+(* ... and at any other voltage v' (p <> -25) *)
+Theorem history_calibrated_general : forall s0 pre v p mid v',
+  ~ p == -25 -> Forall is_read mid ->
+  exists obs y,
+    observations K s0 (pre ++ OpCalibrate v p :: mid ++ [OpRead v']) = obs ++ [ObsRead (Val y)] /\
+    y == (p + 25) * (pymax v' v_floor / pymax v v_floor) - 25.
+Proof.
+  intros s0 pre v p mid v' Hp Hm.
+  destruct (calibrated_general (final_state K s0 pre) v p v' Hp) as (s' & y & Hc & _ & _ & Hy & E).
+  exists (observations K s0 (pre ++ OpCalibrate v p :: mid)), y. split; [|exact E].
+  rewrite app_comm_cons, app_assoc, observations_last, (state_after_calibrate s0 pre v p mid Hm).
+  rewrite (proj1 (step_calibrate_ok _ v p s' Hc)), Hy. reflexivity.
+Qed.
+
+(* reads do not influence later reads: after any number of reads the sensor
+   reports what it would have reported at once *)
+Theorem history_reads_transparent : forall s reads v,
+  Forall is_read reads ->
+  observations K s (reads ++ [OpRead v]) = observations K s reads ++ [ObsRead (pressure K s v)].
+Proof.
+  intros s reads v Hr. rewrite observations_last, (reads_keep_state K s reads Hr). reflexivity.
+Qed.
+
+Theorem history_uncalibrated : forall vcc reads v,
+  Forall is_read reads -> v_floor <= v -> ~ vcc == 0 ->
+  exists obs y,
+    observations K (new_sensor vcc) (reads ++ [OpRead v]) = obs ++ [ObsRead (Val y)] /\
+    y == 250 * (v / vcc) - 25.
+Proof.
+  intros vcc reads v Hr Hv Hs.
+  destruct (pressure_formula (new_sensor vcc) v Hv Hs) as (y & Hy & E).
+  exists (observations K (new_sensor vcc) reads), y. split; [|exact E].
+  rewrite (history_reads_transparent _ reads v Hr), Hy. reflexivity.
+Qed.
+
+(* no read of any history raises *)
+Theorem history_reads_never_raise : forall ops s0,
+  Forall read_returns (observations K s0 ops).
+Proof.
+  induction ops as [|o r IH]; intro s0; [constructor|].
+  simpl. constructor; [|apply IH].
+  destruct o as [v|v p]; simpl; [|exact I].
+  destruct (pressure_total s0 v) as (y & Hy & _). exists y. exact Hy.
+Qed.
+
+(* complete description of the object after ANY sequence of calls *)
+Definition reads_as (s0 s : sensor) (c : option (Q * Q)) : Prop :=
+  match c with
+  | None => s = s0
+  | Some (vc, p) =>
+      forall v, exists y, pressure K s v = Val y /\
+    y == (p + 25) * (pymax v v_floor / pymax vc v_floor) - 25
+  end.
+
+Lemma reads_as_step s0 : forall ops s acc,
+  reads_as s0 s acc -> reads_as s0 (final_state K s ops) (last_cal_from acc ops).
+Proof.
+  induction ops as [|o r IH]; intros s acc H; [exact H|].
+  rewrite final_state_cons. destruct o as [v|v p]; simpl last_cal_from.
+  - apply IH. exact H.
+  - apply IH. destruct (Qeq_bool p (-25)) eqn:E.
+    + apply Qeq_bool_iff in E. rewrite (proj1 (step_calibrate_fails s v p E)). exact H.
+    + assert (Hp : ~ p == -25) by (intro Hq; apply Qeq_bool_iff in Hq; congruence).
+      destruct (calibrated_general s v p 0 Hp) as (s' & _ & Hc & _).
+      rewrite (proj1 (step_calibrate_ok s v p s' Hc)). intro v'.
+      destruct (calibrated_general s v p v' Hp) as (s'' & y & Hc' & _ & _ & Hy & Ey).
+      rewrite Hc in Hc'. injection Hc' as <-. exists y. split; [exact Hy|exact Ey].
+Qed.
+
+Theorem history_spec : forall s0 ops, reads_as s0 (final_state K s0 ops) (last_cal ops).
+Proof. intros s0 ops. apply reads_as_step. reflexivity. Qed.
 
 End Pressure.
